@@ -53,6 +53,15 @@ def evaluate(case: Dict[str, Any]) -> Dict[str, Any]:
             bad = [f for f in FIELDS if now[f] != snaps[k][f]]
             out["prop"].append({"what": f"callback state changed after the callback returned (fields {bad})", "key": ""})
             break
+    if desc["features"].get("update", "none") != "none":
+        # runs in which an update function rewrites the stored gradients (half of them in place, a quarter by writing into the stored
+        # arrays themselves): only the snapshot clause applies — a state already handed over must not change when that happens
+        out["tags"].append("snapshot_clause_under_update_fun_def=True")
+        if K >= 2:
+            out["nontrivial"] = f"{case['seed']}:upd"
+        if corr is None:
+            out["corr"] = None
+        return out
     # 2. the state handed over after iteration k == result of a run with maxiter = k (no
     #    callback in that run). Iterations whose line search failed hand over no state.
     idx = list(range(K))
@@ -156,12 +165,19 @@ def run(tier: str, seed: int) -> int:
         r = random.Random(s)
         cases.append({"seed": s, "features": features(r), "max_k": mk, "max_restart": mr,
                       "override": {"maxiter": r.choice([3, 6, 10, 20]), "maxfun": 15000}})
+    for i in range(n // 2):
+        s = seed * 1_000_003 + 300_000 + i
+        r = random.Random(s)
+        cases.append({"seed": s, "max_k": mk, "max_restart": mr, "small_budgets": False,
+                      "features": {"jac": "callable", "callback": "false", "ftarget": "none", "gtol_callable": False, "scaler": "none",
+                                   "update": r.choice(["reweight", "rescale", "reweight"]), "consistent": True, "switch_at": r.randint(1, 4)},
+                      "override": {"maxiter": r.choice([8, 15]), "ftol": 0.0}})
     return run_property(
         PROP, "harness.props.c07", THEOREMS, MODULES, cases, tier, seed,
         rule="for each explored run every iteration k is a crash point: the state handed to the callback (serialised at that moment and "
              "again at the end of the run) is compared with the result of a separate run with maxiter=k, the run is compared with a run "
              "without callback, and a restart from the kept state must reproduce the next iterate; non-trivial = at least two crash points",
-        assumptions=["objectives finite-valued on the box", "no update_fun_def (C13)", "a third of the runs use a gradient scaler (state k against the run with maxiter=k, frozen state, transparent callback); the crash-recovery clause is checked without scaler (K1)"])
+        assumptions=["objectives finite-valued on the box", "no update_fun_def (C13), except for the snapshot clause, which is also checked on runs whose update function rewrites the stored gradients in place", "a third of the runs use a gradient scaler (state k against the run with maxiter=k, frozen state, transparent callback); the crash-recovery clause is checked without scaler (K1)"])
 
 
 def replay(path: str) -> int:
